@@ -126,6 +126,40 @@ def run(ctx, config='rel-all'):
         else:
             ctx.violation('R1', fn, 'no-initialisation', '%s neither copies nor writes the elements it returns' % fn, b.get('span'))
     ctx.floor('R1', n1, 7, 'slice allocation methods')
+    # ---- R6 inventory: every public arena method that returns a mutable reference either is one of the analysed initialisers
+    # (raw writes checked by R1/R2) or is a thin forward to one of them with no raw operation of its own; a method that starts
+    # to initialise memory itself is outside what R1/R2 decided and is reported
+    CORE = set(SLICE_METHODS) | set(VALUE_METHODS)
+    n6 = 0
+    for b in db.fn_bodies():
+        m = b['meta']
+        out = m.get('output') or ''
+        if not (b['kind'] == 'assoc_fn' and m.get('impl_adt') == 'Bump' and m.get('pub') and not m.get('impl_trait') and '&' in out and 'mut' in out):
+            continue
+        name = m['name']
+        I, r = arena.run_fn(ctx, b['id'], config)
+        own = [e for e in r.events if len(e.stack) == 1]
+        raw = [e for e in own if e.kind in ('slice', 'copy') or (e.kind == 'call' and e.callee in ('core::ptr::write', 'core::ptr::write_bytes'))]
+        n6 += 1
+        if name in CORE:
+            ctx.ok('R6', 'Bump::%s is an analysed initialiser' % name, 'R1/R2')
+            continue
+        fw = [e for e in own if e.kind == 'call' and 'Bump::<MIN_ALIGN>::' in (e.callee or '') and not e.callee.endswith('is_last_allocation')]
+        if raw:
+            ctx.violation('R6', 'Bump::' + name, 'raw-initialisation', 'Bump::%s performs raw initialisation itself (%s) but is not among the initialisers whose extents and indices are checked; only forwards to %s are expected here' % (name, sorted({e.kind if e.kind != 'call' else e.callee.split('::')[-1] for e in raw}), sorted(CORE)[:4]), raw[0].span)
+        elif len(fw) != 1:
+            ctx.violation('R6', 'Bump::' + name, 'forward', 'Bump::%s must forward to exactly one arena initialiser; it calls %s' % (name, [e.callee.split('::')[-1] for e in fw]), b.get('span'))
+        else:
+            okv = True
+            if name.endswith('_fill_iter'):
+                # the count is the length the ExactSizeIterator reports, the elements are its items
+                a = fw[0].args[1] if len(fw[0].args) > 1 else None
+                okv = a is not None and a[0] == 'call' and 'ExactSizeIterator' in a[1] and a[1].endswith('::len')
+            if okv:
+                ctx.ok('R6', 'Bump::%s forwards to %s' % (name, fw[0].callee.split('::')[-1]), 'single arena call, no raw operation in its own frame')
+            else:
+                ctx.violation('R6', 'Bump::' + name, 'forward-count', 'Bump::%s must reserve exactly iter.len() slots' % name, b.get('span'))
+    ctx.floor('R6', n6, 24, 'public arena methods returning a mutable reference')
     # value methods: the value is written exactly at the reserved pointer, once
     for name in VALUE_METHODS:
         b = arena.bump_method(db, name)
